@@ -105,6 +105,10 @@ GroupFails(g) ==
             \A i \in 1..Len(g.variants) : g.variants[i].kind \in {"rows", "tables"} => cmp(g.variants[i])>>,
        <<"C17.same_results_whatever_other_assets_are_processed",
             \A i \in 1..Len(g.variants) : g.variants[i].kind = "subset" => cmp(g.variants[i])>>,
+       \* ... and the asset's own sheets of the full report are the same document fragments (same rows in the input, same cells, same links)
+       <<"C17.same_sheets_whatever_other_assets_are_processed",
+            \A i \in 1..Len(g.variants) : g.variants[i].kind = "subset" =>
+               \A a \in DOMAIN g.variants[i].own_sheets \cap DOMAIN g.base.own_sheets : g.variants[i].own_sheets[a] = g.base.own_sheets[a]>>,
        <<"C17.all_variants_succeed", g.base.exit = 0 /\ \A i \in 1..Len(g.variants) : g.variants[i].exit = 0>> })
      \cup {"W.C17.group"}
 =============================================================================
